@@ -63,6 +63,7 @@ def _cell(rng, d, kind, dyadic):
         for i in range(d):
             for j in range(i):
                 H[i][j] = dec(rng, -1.5, 1.5, 2)
+        common.sparse_tilt(rng, H)
     return H
 
 
